@@ -10,6 +10,7 @@ import (
 	"strings"
 	"sync"
 	"sync/atomic"
+	"time"
 
 	"golang.org/x/tools/go/ssa"
 )
@@ -97,6 +98,7 @@ type Path struct {
 	keptUnknown int
 	inInit      bool
 	effectArgs  [][]*Term
+	effectFail  []*Term
 	lastPanic   *Term
 	globalCells map[*Value]string
 	globalMaps  map[*Map]string
@@ -126,6 +128,7 @@ type Explorer struct {
 	aborted   bool
 	keptUnknown int64
 	noSlicing   bool
+	siteCands   map[string]int
 }
 
 func (ex *Explorer) interpretable(fn *ssa.Function) bool {
@@ -140,6 +143,17 @@ func (ex *Explorer) interpretable(fn *ssa.Function) bool {
 		return false
 	}
 	return ex.pkgs[fn.Pkg]
+}
+
+// siteBudget: at most 3 counterexample searches per assertion site and harness.
+func (ex *Explorer) siteBudget(label string) bool {
+	ex.mu.Lock()
+	defer ex.mu.Unlock()
+	if ex.siteCands == nil {
+		ex.siteCands = map[string]int{}
+	}
+	ex.siteCands[label]++
+	return ex.siteCands[label] <= 3
 }
 
 func (ex *Explorer) noteEncoded(fn *ssa.Function) {
@@ -553,7 +567,11 @@ func (p *Path) assertObligKnown(cond *Term, label string, known *Term, finding s
 		ob.Status = "inconclusive"
 		ob.Reason = "no solver decided within the cap"
 	case "sat":
-		p.refineAndRecord(ob, neg)
+		if p.ex.siteBudget(label) {
+			p.refineAndRecord(ob, neg)
+		} else {
+			ob.Status = "violated-unrefined"
+		}
 	}
 	p.assume(goal)
 }
@@ -570,128 +588,145 @@ type ModelResult struct {
 
 // solveModel finds a model of asserts whose UF applications agree with the real
 // library functions (counterexample-guided refinement with ground facts).
+// Preference levels: 0 = "nice" input strings (identifier-like, so that texts fed
+// to the formatter tend to be real Go) plus battery points, 1 = battery points
+// (inputs on which the real library values are already known), 2 = unconstrained.
+// Only an unsat at level 2 is an unsat of the query itself.
 func solveModel(ss *SolverSet, asserts []*Term, names []string, nts []*Term, extra []*Term, to int, useCVC bool) ModelResult {
+	return solveModelB(ss, asserts, names, nts, extra, to, useCVC, time.Now().Add(10*time.Minute), 40)
+}
+
+var niceStrings = []string{"a", "b", "c", "x", "y", "", "\n", "a\nb", "p", "q"}
+
+func solveModelB(ss *SolverSet, base []*Term, names []string, nts []*Term, extra []*Term, to int, useCVC bool, deadline time.Time, maxRounds int) ModelResult {
 	res := ModelResult{}
-	var pins []*Term
-	base := asserts
-	useHints := true
-	for round := 0; round < 40; round++ {
-		res.Rounds = round
-		asserts := base
-		if pins != nil {
-			asserts = append(append([]*Term{}, base...), pins...)
-		}
-		hinted := false
-		if useHints && pins == nil {
-			// first try inputs on which the real library values are already known (battery)
+	total := 0
+	for level := 0; level <= 2; level++ {
+		var pins []*Term
+		for round := 0; round < maxRounds; round++ {
+			total++
+			res.Rounds = total
+			if time.Now().After(deadline) {
+				res.Status = "inconclusive"
+				res.Reason = "time budget for model search exhausted"
+				return res
+			}
+			asserts := append([]*Term{}, base...)
+			asserts = append(asserts, pins...)
 			vars, ufs, seen := map[*Term]bool{}, map[*Term]bool{}, map[*Term]bool{}
 			for _, a := range asserts {
 				a.collect(vars, ufs, seen)
 			}
-			var hs []*Term
-			for u := range ufs {
-				if h := batteryHint(u); h != nil && !h.IsFalse() {
-					hs = append(hs, h)
-				}
+			for _, a := range extra {
+				a.collect(vars, ufs, seen)
 			}
-			if len(hs) > 0 {
-				sort.Slice(hs, func(i, j int) bool { return hs[i].id < hs[j].id })
-				asserts = append(append([]*Term{}, asserts...), hs...)
-				hinted = true
-			}
-		}
-		vars, ufs, seen := map[*Term]bool{}, map[*Term]bool{}, map[*Term]bool{}
-		for _, a := range asserts {
-			a.collect(vars, ufs, seen)
-		}
-		for _, a := range extra {
-			a.collect(vars, ufs, seen)
-		}
-		// axioms may introduce further applications (e.g. unquote(goquote(s))): include them
-		for changed := true; changed; {
-			changed = false
-			for u := range ufs {
-				for _, ax := range ufAxioms(u) {
-					n := len(ufs)
-					ax.collect(vars, ufs, seen)
-					if len(ufs) != n {
-						changed = true
+			// axioms may introduce further applications (e.g. unquote(goquote(s))): include them
+			for changed := true; changed; {
+				changed = false
+				for u := range ufs {
+					for _, ax := range ufAxioms(u) {
+						n := len(ufs)
+						ax.collect(vars, ufs, seen)
+						if len(ufs) != n {
+							changed = true
+						}
 					}
 				}
 			}
-		}
-		var apps []*Term
-		for u := range ufs {
-			if nativeUF(u.Name) != nil {
-				apps = append(apps, u)
+			if pins == nil && level <= 1 {
+				var hs []*Term
+				for u := range ufs {
+					if h := batteryHint(u); h != nil && !h.IsFalse() {
+						hs = append(hs, h)
+					}
+				}
+				sort.Slice(hs, func(i, j int) bool { return hs[i].id < hs[j].id })
+				asserts = append(asserts, hs...)
 			}
-		}
-		sort.Slice(apps, func(i, j int) bool { return apps[i].id < apps[j].id })
-		gv := append([]*Term{}, nts...)
-		gv = append(gv, extra...)
-		for _, a := range apps {
-			gv = append(gv, a)
-			gv = append(gv, a.Args...)
-		}
-		v := ss.decide(asserts, gv, to, useCVC)
-		if hinted && v.Result != "sat" {
-			useHints = false
-			continue
-		}
-		if pins != nil && v.Result != "sat" {
-			// the pinned inputs do not stay on this path under the real library values: unpin and go on
-			pins = nil
-			continue
-		}
-		res.Solvers = v.Solvers
-		res.By = v.By
-		if v.Result == "unsat" {
-			res.Status = "unsat"
-			return res
-		}
-		if v.Result == "sat" && v.Model == nil && len(gv) == 0 {
-			v.Model = []string{}
-		}
-		if v.Result != "sat" || v.Model == nil {
-			res.Status = "inconclusive"
-			res.Reason = "no solver produced a model"
-			return res
-		}
-		learned := 0
-		idx := len(nts) + len(extra)
-		if os.Getenv("GOSMT_DEBUG_REFINE") != "" {
-			fmt.Fprintf(os.Stderr, "refine round %d pins=%v by=%s model=%v\n", round, pins != nil, v.By, v.Model)
-		}
-		for _, a := range apps {
-			appVal := v.Model[idx]
-			argVals := v.Model[idx+1 : idx+1+len(a.Args)]
-			idx += 1 + len(a.Args)
-			nat, ok := nativeUF(a.Name)(argVals)
-			if !ok {
+			if pins == nil && level == 0 {
+				for _, t := range nts {
+					if t.Sort == SStr {
+						var alts []*Term
+						for _, s := range niceStrings {
+							alts = append(alts, mkEq(t, mkStr(s)))
+						}
+						asserts = append(asserts, mkOr(alts...))
+					}
+				}
+			}
+			var apps []*Term
+			for u := range ufs {
+				if nativeUF(u.Name) != nil {
+					apps = append(apps, u)
+				}
+			}
+			sort.Slice(apps, func(i, j int) bool { return apps[i].id < apps[j].id })
+			gv := append([]*Term{}, nts...)
+			gv = append(gv, extra...)
+			for _, a := range apps {
+				gv = append(gv, a)
+				gv = append(gv, a.Args...)
+			}
+			v := ss.decideF(asserts, gv, to, useCVC, true)
+			if v.Result == "sat" && v.Model == nil && len(gv) == 0 {
+				v.Model = []string{}
+			}
+			if pins != nil && (v.Result != "sat" || v.Model == nil) {
+				// the pinned inputs do not stay on this path under the real library values: unpin and go on
+				pins = nil
 				continue
 			}
-			if nat != appVal {
-				addGroundFact(a, argVals, nat)
-				learned++
+			if v.Result != "sat" || v.Model == nil {
+				if level < 2 {
+					break // next preference level
+				}
+				res.Solvers = v.Solvers
+				if v.Result == "unsat" {
+					res.Status = "unsat"
+				} else {
+					res.Status = "inconclusive"
+					res.Reason = "no solver produced a model"
+				}
+				return res
 			}
-		}
-		if learned == 0 {
-			res.Status = "sat"
-			res.Model = map[string]string{}
-			for i, n := range names {
-				res.Model[n] = v.Model[i]
+			res.Solvers = v.Solvers
+			res.By = v.By
+			learned := 0
+			idx := len(nts) + len(extra)
+			if os.Getenv("GOSMT_DEBUG_REFINE") != "" {
+				fmt.Fprintf(os.Stderr, "refine level %d round %d pins=%v by=%s model=%v\n", level, round, pins != nil, v.By, v.Model)
 			}
-			res.Extra = v.Model[len(nts) : len(nts)+len(extra)]
-			return res
-		}
-		// keep the inputs, let the solver recompute everything that depends on the corrected values
-		pins = nil
-		for i, t := range nts {
-			pins = append(pins, mkEq(t, valueTerm(v.Model[i], t.Sort)))
+			for _, a := range apps {
+				appVal := v.Model[idx]
+				argVals := v.Model[idx+1 : idx+1+len(a.Args)]
+				idx += 1 + len(a.Args)
+				nat, ok := nativeUF(a.Name)(argVals)
+				if !ok {
+					continue
+				}
+				if nat != appVal {
+					addGroundFact(a, argVals, nat)
+					learned++
+				}
+			}
+			if learned == 0 {
+				res.Status = "sat"
+				res.Model = map[string]string{}
+				for i, n := range names {
+					res.Model[n] = v.Model[i]
+				}
+				res.Extra = v.Model[len(nts) : len(nts)+len(extra)]
+				return res
+			}
+			// keep the inputs, let the solver recompute everything that depends on the corrected values
+			pins = nil
+			for i, t := range nts {
+				pins = append(pins, mkEq(t, valueTerm(v.Model[i], t.Sort)))
+			}
 		}
 	}
 	res.Status = "inconclusive"
-	res.Reason = "UF refinement against the real library did not converge in 40 rounds"
+	res.Reason = "UF refinement against the real library did not converge"
 	return res
 }
 
